@@ -7,7 +7,8 @@ ASSUMPTIONS = [
     'workloads over the configured flows; priorities are positive integers; sizes positive integers; rate > 0; `out` attached',
     'the start of a transmission is the scheduler\'s decision burst (DESIGN section 3): a packet arriving later in the same instant is not "waiting at the start"',
     'theorems are over exact rationals; the replay compares IEEE doubles bit for bit',
-    'the SP process on the real kernel refines the MultiQueueServer LTS: checked by replay (labels from Process.target and the sender process), not proved',
+    'the SP process on the real kernel refines the MultiQueueServer LTS: checked by replay (labels from Process.target and the sender process); '
+    'for SP written as processes on the kernel MODEL it is a theorem (Props/C13K.lean), and that program is compared bit for bit with the real SP (spk leg)',
     'SP\'s annotation packet.priorities[flow2class(flow)] = prio is not modelled (it influences nothing the property speaks about)',
 ]
 EXTRA_MODULES = ('OnlVerif.Props.C13K',)
@@ -113,7 +114,7 @@ def run_spk(ctx, res=None):
         for f in range(c['F']):
             st = sp.stores.get(f)
             lines.append(f'flow {f} count={sp.queue_count.get(f, 0)} bytes={sp.queue_byte_size.get(f, 0)} len={len(st.items) if st else 0}')
-        return lines + [f'now {bits(env.now)}']
+        return lines + [f'now {bits(env.now)}', 'oracle ok' if tag == 'RET' and not oracle_k(c, lines)[0] else 'oracle -' if tag != 'RET' else 'oracle REJECT']
 
     def oracle_k(c, lines):
         """C12/C13 restated over the implementation's own put / serve / out observations (exact float equalities: the kernel
